@@ -436,10 +436,13 @@ class Interp:
             si, zi = qparams(it)
             so, zo = qparams(ot)
             lo, hi = dtype_range(ot["dtype"])
-            m = (x - int(zi[0])).sum(axis=axes, keepdims=bool(opts.get("KeepDims"))).astype(np.float64) / float(np.prod([x.shape[a] for a in axes]))
-            r = m * (float(si[0]) / float(so[0]))
-            q = np.where(r >= 0, np.floor(r + 0.5), np.ceil(r - 0.5)).astype(I64) + int(zo[0])
-            self.loose = max(self.loose, 2)  # exact real mean, not the reference's integer pipeline: one more step of slack
+            n = int(np.prod([x.shape[a] for a in axes]))
+            acc = (x - int(zi[0])).sum(axis=axes, keepdims=bool(opts.get("KeepDims")))
+            # tflite reduce.cc (quantised mean): multiplier of input/output scale, divided by the element count after a left shift that keeps precision
+            mult, e = tflref.quantize_multiplier(float(np.float32(si[0]) / np.float32(so[0])))
+            sh = min(n.bit_length() - 1, 32, 31 + e)
+            mult = (mult << sh) // n
+            q = vec_mbqm(acc, mult, e - sh) + int(zo[0])
             return [np.clip(q, lo, hi).reshape(ot["shape"])]
         if code == "RESIZE_NEAREST_NEIGHBOR":
             x = self.get(values, ins[0])
